@@ -155,7 +155,23 @@ func runC15(rc *RC) {
 		g.specs[s.ID] = s
 		base = append(base, s)
 	}
-	rc.Case("base", len(base), nr, nc)
+	// 20% of runs: a two-relation cycle whose members also share a point,
+	// edited member by member later on (reference lists that are shared
+	// between referrers on a cycle, shrinking and growing step by step)
+	gadget := kind != 0 && nr >= 2 && rc.Pct(25)
+	var gadgetPool []relMember
+	if gadget {
+		x := pointID(rc.Draw(maxPoints))
+		a, b := g.specs[relID(0)], g.specs[relID(1)]
+		a.Members = []relMember{{ID: x, Role: "stop"}, {ID: relID(1), Role: "outer"}}
+		b.Members = []relMember{{ID: x, Role: "stop"}, {ID: relID(0), Role: ""}}
+		if rc.Pct(40) {
+			b.Members = append(b.Members, relMember{ID: pointID(rc.Draw(maxPoints)), Role: ""})
+		}
+		gadgetPool = []relMember{{ID: x, Role: "stop"}, {ID: relID(0), Role: ""}, {ID: relID(1), Role: "outer"}, {ID: pointID(rc.Draw(maxPoints)), Role: ""}}
+		rc.Probe("relation-cycle-gadget")
+	}
+	rc.Case("base", len(base), nr, nc, gadget)
 	for _, s := range base {
 		if s.ID.Type == b6.FeatureTypeRelation || s.ID.Type == b6.FeatureTypeCollection {
 			rc.Notef("base: %s", s)
@@ -191,6 +207,17 @@ func runC15(rc *RC) {
 	mix := opMix{invalidPct: 20, richTypes: true, cycles: true, geometryPct: 85}
 	for i := 0; i < steps; i++ {
 		o := g.genOp(mix)
+		if gadget && rc.Pct(75) {
+			// drop or add one member of one of the two relations on the cycle
+			sp := g.specs[relID(rc.Draw(2))].clone()
+			if len(sp.Members) > 0 && rc.Pct(60) {
+				k := rc.Draw(len(sp.Members))
+				sp.Members = append(sp.Members[:k:k], sp.Members[k+1:]...)
+			} else {
+				sp.Members = append(sp.Members, gadgetPool[rc.Draw(len(gadgetPool))])
+			}
+			o = op{Kind: "add", Spec: sp}
+		}
 		rc.Case(o.String())
 		var err error
 		if !rc.Guard(name+"/panic", func() { err = o.apply(mw) }) {
